@@ -168,3 +168,5 @@ def cases(rng, tier, shard, nshards):
         if k % 2 == 1:
             e2 = tplgen.vary_extra(rng, x)
             yield SEQ, {"template": x["template"], "extras": [x["extra"], e2, x["extra"]][: rng.choice([2, 3])]}
+        if k % 4 == 0:
+            yield SEQ, tplgen.gen_sensitive_sequence(rng)
